@@ -50,14 +50,14 @@ CHECKS.update({
  'C10': dict(text='detect_collisions_with_skips / check_required / min_distance executed from MIR for tool/base present or absent, 0..2 environment objects and an ARBITRARY safety table (hash map as an oracle: symbolic presence and value per key): '
                   'every relevant pair of the property text is handed to the kernel, with the meshes and poses of those two bodies, whenever it is not marked never-colliding in either key order, and nothing else is; CollisionTask::collides and '
                   'process_collision_tasks over parry3d/rayon oracles: per-pair verdict (touch-only / distance <= r / never), (min,max) reporting, all / first / no-check modes for every choice rayon may make; collides / collision_details / near wiring. '
-                  'Everything inside parry3d, incl. soundness of the loosened-box pre-filter, is an explicit assumption.', design='6/C10'),
+                  'The pre-filter call must place the loosened box with the pose of the body it encloses (or pose both in that body\'s frame). Everything inside parry3d, incl. geometric soundness of a well-placed loosened-box pre-filter, is an explicit assumption; a native battery compares verdicts at a positive safety distance with parry\'s own distance on random placements.', design='6/C10'),
  'C11': dict(text='All 8 trait methods, 4 body delegations, both constructors and positioned_robot of KinematicsWithShape executed from MIR around an oracle kinematic stack and an oracle collision verdict: each inverse entry point returns entry k '
                   'iff answer k of the stack is not reported colliding (judged against the same stack), order preserved; constructors build Tool{Base{OPW+limits}} with the given transforms and place base/tool meshes accordingly.', design='6/C11'),
  'C14': dict(text='non_colliding_offsets and its closure executed from MIR (robot, limits verdict and collision pass as oracles): the 12 candidates are initial[j -> from_j|to_j], each offered iff within limits and its collision pass reports nothing, '
                   'the pass uses the link poses of that candidate, the own safety table, first-collision mode and marks links below j unmoved; and with that skip set the task list still contains every relevant pair involving a moved body (shared with C10).', design='6/C14'),
 })
 CHECKS.update({
- 'C15': dict(text='compute_jacobian executed from its generic MIR with the robot and scaled_axis as oracles: column i is exactly the finite difference of the robot forward() at q and q+eps*e_i (translation, and log map of R_i R^-1); '
+ 'C15': dict(text='compute_jacobian executed from its generic MIR with the robot and scaled_axis as oracles: column i is exactly the finite difference of the robot forward() at q and q+eps*e_i (translation, and log map of R_i R^-1); Jacobian::new passes robot, joints and the given step on unchanged; '
                   'the C03 terms of the OPW forward() are differentiated symbolically and the solver decides d t/d joint_i = sigma_i z_i x (t - o_i) and dR/d joint_i R^T = skew(sigma_i z_i) with z_i, o_i from forward_with_joint_poses (all parameters, offsets, sign symbols free); '
                   'torques = J^T F, velocities = try_inverse(J) w, isometry/vector entry points agree. The O(eps) remainder between the two is Taylor (argued, not solved).', design='6/C15'),
 })
